@@ -68,8 +68,8 @@ def command_of(s, by_out):
         parts.append("d=" + s.id + ".d")
     if s.deps == "msvc":
         parts.append("msvc=1")
-    if s.restat:
-        parts.append("restat=1")
+    if s.restat or getattr(s, "dyn_restat", False):
+        parts.append("restat=1")   # the tool writes only on change, whoever declares restat
     if s.generator:
         parts.append("gen=1")
     if s.copy:
@@ -234,15 +234,42 @@ def ninja_op(targets=(), j=1, k=1, faults=None, label=None, interrupt=False, fla
     return op
 
 
-def scenario(name, family, variants, files=None, ops=None, init=(), depth=2, tags=(), dev_bound=-1, dirs=()):
+def scenario(name, family, variants, files=None, ops=None, init=(), depth=2, tags=(), dev_bound=-1, dirs=(),
+             twin_variants=None):
     files = dict(files or {})
     for x in sources_of(variants):
         files.setdefault(x, "%s-v0\n" % x)
-    return {
+    d = {
         "name": name, "family": family, "variants": [v.to_json() for v in variants], "files": files,
         "ops": ops or [], "init": list(init), "depth": depth, "tags": list(tags), "dev_bound": dev_bound,
         "dirs": list(dirs),
     }
+    if twin_variants:
+        d["twin_variants"] = [v.to_json() for v in twin_variants]
+    return d
+
+
+def declared_twin(v):
+    """The same graph with discovered dependencies written as implicit inputs and dyndep information
+    (extra inputs, implicit outputs, restat) written into the build statement."""
+    import copy
+    out = []
+    for s in v.stmts:
+        t = copy.copy(s)
+        t.im = list(s.im) + [h for h in s.hidden if h not in s.im]
+        t.hidden = []
+        t.depfile = False
+        t.deps = ""
+        if s.dyndep:
+            t.im = t.im + [x for x in s.extra_reads if x not in t.im]
+            t.iouts = list(s.iouts) + [x for x in s.extra_outs if x not in s.iouts]
+            t.extra_reads = []
+            t.extra_outs = []
+            t.dyndep = ""
+            t.restat = s.restat or getattr(s, "dyn_restat", False)
+        out.append(t)
+    return Variant(v.name + "-declared", out, pools=v.pools, defaults=v.defaults, extra_files=v.extra_files,
+                   header="# declared twin")
 
 
 def standard_ops(variants, files, js=(1, 3), with_faults=True, with_rm=True, targets_extra=(), touch=False,
